@@ -2,10 +2,12 @@ use crate::engine::*;
 use serde_json::Value;
 
 pub mod c16;
+pub mod c17;
 
 pub fn run(ctx: &Ctx) -> Option<PropReport> {
     Some(match ctx.prop.as_str() {
         "C16" => c16::run(ctx),
+        "C17" => c17::run(ctx),
         _ => return None,
     })
 }
@@ -13,6 +15,7 @@ pub fn run(ctx: &Ctx) -> Option<PropReport> {
 pub fn replay(ctx: &Ctx, sub: &str, case: &Value) -> Result<(), Fail> {
     match ctx.prop.as_str() {
         "C16" => c16::replay(ctx, sub, case),
+        "C17" => c17::replay(ctx, sub, case),
         _ => Err(Fail::new("replay-unsupported", "no replay for this property")),
     }
 }
